@@ -119,26 +119,29 @@ def schedules(lines, bound):
     return out
 
 
-def explore(make_bodies, bound, root, same=lambda a, b: a == b, max_cuts=None):
+def explore(make_bodies, bound, root, same=lambda a, b: a == b, max_cuts=None, either_order=False):
     """-> dict(executions, lines, violations=[(kind, detail)], outcomes=set()).  make_bodies() must build fresh, equal bodies.
     max_cuts: a body longer than that many traced lines has its cut points thinned to every stride-th line (stride reported in
-    the result: the exploration is then exhaustive over the thinned cut points only)."""
+    the result: the exploration is then exhaustive over the thinned cut points only).
+    either_order: the bodies need not commute; every interleaved execution must then give, as a whole, what one of the two
+    sequential orders gives (linearizability of two operations)."""
     for _ in range(2):                       # warm caches / lazy imports so that line counts are stable
         sequential(make_bodies, root)
     r01, r10, lines = sequential(make_bodies, root)
     stride = [max(1, -(-ln // max_cuts)) if max_cuts else 1 for ln in lines]
     res = {'executions': 3, 'lines': lines, 'violations': [], 'outcomes': set(), 'bound': bound, 'stride': stride}
-    if not all(same(x, y) for x, y in zip(r01, r10)):
+    if not either_order and not all(same(x, y) for x, y in zip(r01, r10)):
         res['violations'].append(('sequential order matters', {'first_then_second': repr(r01)[:400], 'second_then_first': repr(r10)[:400]}))
         return res
     res['outcomes'].add(repr(r01))
+    res['outcomes'].add(repr(r10))
     for start, cuts in schedules(lines, bound):
         if any(n_ % stride[t_] for t_, n_ in cuts):
             continue
         r, ln, taken = run_schedule(make_bodies(), start, cuts, root)
         res['executions'] += 1
         res['outcomes'].add(repr(r))
-        if all(same(x, y) for x, y in zip(r, r01)):
+        if all(same(x, y) for x, y in zip(r, r01)) or (either_order and all(same(x, y) for x, y in zip(r, r10))):
             continue
         r2, _, _ = run_schedule(make_bodies(), start, cuts, root)
         res['executions'] += 1
@@ -151,7 +154,8 @@ def explore(make_bodies, bound, root, same=lambda a, b: a == b, max_cuts=None):
             which = [i for i in range(len(r)) if not same(r[i], r01[i])]
             res['violations'].append(('interleaving result differs from the sequential one',
                                       {'start': start, 'cuts': cuts, 'wrong_thread': which, 'got': repr([r[i] for i in which])[:500],
-                                       'sequential': repr([r01[i] for i in which])[:500]}))
+                                       'sequential': repr([r01[i] for i in which])[:500],
+                                       'other_sequential_order': repr([r10[i] for i in which])[:500] if either_order else None}))
         if len(res['violations']) >= 3:
             break
     return res
